@@ -11,21 +11,21 @@ TB = ("Trusted: Lean 4.33 kernel; axioms propext/Classical.choice/Quot.sound onl
 PROOF_TECH = "Lean 4 theorems over regenerated tables + model/spec-vs-code correspondence"
 PROOF_TECH_SRC = "Lean 4 theorems over regenerated tables and re-translated scoring source (model = translated source) + model/spec-vs-code correspondence"
 CHECKS = {
- "C01": ("proof", "Lean: v3_build_eq_spec — for every valid metric map and both minor versions the model of cvss3.py (parse, add_missing_optional, PR-by-scope, cap, formulas) computes exactly the FIRST equations on the assignment of the ORIGINAL map; every weight the library reads is pinned to the specification's tables (kernel-decided over the regenerated tables); v3_spec_range; v3_*_decimal_robust (C19 file) shows the only inexact Decimal operations cannot change a score. Tie: translator + model-vs-code and Lean-spec-vs-code correspondence on all 5,184 base vectors and sampled temporal/environmental vectors (thorough: the whole 7.2 M-class quotient).", PROOF_TECH_SRC, "6/C01, 12"),
- "C02": ("proof", "Lean: v4_build_eq_spec — model of cvss4.py (fill-in of Modified metrics/defaults, m(), macrovector, next-lower macrovectors, product search over max vectors with fall-back, contributions, clamp, EPSILON rounding) = the specification's algorithm for every valid map; look-up table, depths, max vectors pinned to frozen specification copies; v4_lookup_total, v4_gaps_nonneg, v4_distance_choice_irrelevant, roundHalfUp_epsilon_robust. Tie: correspondence on every scoring-group assignment in random contexts + random vectors (thorough: all 15,116,544 effective assignments).", PROOF_TECH_SRC, "6/C02, 12"),
- "C03": ("proof", "Lean: v2_scores_eq_spec (model of cvss2.py = the guide's equations incl. f(Impact), cap, adjusted temporal, clamps), v2_none_iff, v2_spec_range; weights pinned. Tie: all 729 base vectors, the low-end family, sampled vectors (thorough: all 18,895,680 effective assignments).", PROOF_TECH_SRC, "6/C03, 12"),
+ "C01": ("proof", "Lean: v3_build_eq_spec — for every valid metric map and both minor versions the model of cvss3.py (parse, add_missing_optional, PR-by-scope, cap, formulas) computes exactly the FIRST equations on the assignment of the ORIGINAL map; every weight the library reads is pinned to the specification's tables (kernel-decided over the regenerated tables); v3_spec_range; v3_*_decimal_robust (C19 file) shows the only inexact Decimal operations cannot change a score. Tie: translator + model-vs-code and Lean-spec-vs-code correspondence on all 5,184 base vectors and sampled temporal/environmental vectors (thorough: the whole 7.2 M-class quotient).", PROOF_TECH, "6/C01, 12"),
+ "C02": ("proof", "Lean: v4_build_eq_spec — model of cvss4.py (fill-in of Modified metrics/defaults, m(), macrovector, next-lower macrovectors, product search over max vectors with fall-back, contributions, clamp, EPSILON rounding) = the specification's algorithm for every valid map; look-up table, depths, max vectors pinned to frozen specification copies; v4_lookup_total, v4_gaps_nonneg, v4_distance_choice_irrelevant, roundHalfUp_epsilon_robust. Tie: correspondence on every scoring-group assignment in random contexts + random vectors (thorough: all 15,116,544 effective assignments).", PROOF_TECH, "6/C02, 12"),
+ "C03": ("proof", "Lean: v2_scores_eq_spec (model of cvss2.py = the guide's equations incl. f(Impact), cap, adjusted temporal, clamps), v2_none_iff, v2_spec_range; weights pinned. Tie: all 729 base vectors, the low-end family, sampled vectors (thorough: all 18,895,680 effective assignments).", PROOF_TECH, "6/C03, 12"),
  "C04": ("proof", "Lean: v{2,3,4}_construct_accepts_iff (constructor succeeds iff the string is in the declarative grammar), ..._mandatory_iff, construct_outcomes / no_foreign_exception for EVERY string; vocabulary pinned to the frozen specification copy, token cleanliness, exception taxonomy from exceptions.py. Tie: outcome class on valid vectors, the C04 edit stream and bounded-exhaustive small strings vs the model and vs an independently written grammar classifier.", PROOF_TECH, "6/C04, 12"),
  "C05": ("proof", "Lean: v{2,3,4}_obs_of_assignment (all named observables are functions of the normalised assignment), ..._perm_accepted / ..._nd_accepted (permutations and explicit Not Defined are accepted and state the same values). Tie: the relation on the real code for sampled vectors x variants and systematic base x single-optional pairs; model-vs-code on all observables.", PROOF_TECH, "6/C05, 12"),
- "C06": ("proof", "Lean: the five substitution families on the specification equations for arbitrary assignments (frames, ND-modified, ND-equivalent, overridden base, supplemental) + constructor-level corollaries through model = spec. Tie: the substitutions applied to sampled vectors on the real code; scores model-vs-code.", PROOF_TECH_SRC, "6/C06, 12"),
- "C07": ("proof", "Lean: clean vector = rendering of the canonical listing (exactly the defined metrics, once, table order), clean round trip, equality iff same version and same defined values, equivalence relation, hash consistency, never equal across classes (all versions). Tie: expected canonical listing, round trip, ==/!=/hash/set/dict on generated pairs incl. objects warmed by other accessor calls; model-vs-code.", PROOF_TECH_SRC, "6/C07, 12"),
+ "C06": ("proof", "Lean: the five substitution families on the specification equations for arbitrary assignments (frames, ND-modified, ND-equivalent, overridden base, supplemental) + constructor-level corollaries through model = spec. Tie: the substitutions applied to sampled vectors on the real code; scores model-vs-code.", PROOF_TECH, "6/C06, 12"),
+ "C07": ("proof", "Lean: clean vector = rendering of the canonical listing (exactly the defined metrics, once, table order), clean round trip, equality iff same version and same defined values, equivalence relation, hash consistency, never equal across classes (all versions). Tie: expected canonical listing, round trip, ==/!=/hash/set/dict on generated pairs incl. objects warmed by other accessor calls; model-vs-code.", PROOF_TECH, "6/C07, 12"),
  "C08": ("proof", "Lean: every accepted v2/v3 string and every v4 clean vector matches the official vectorString pattern (declarative regex semantics; fullMatch_iff; frozen transcription of the schema patterns; order_ok pins the v4 emission order to the official order); clean vectors, RH vector part and the interactive result are accepted by the own constructor. Tie: emitted strings (after interleaved sessions / accessor calls / equal version spellings) re-parsed by the code and matched with Python re; Lean matcher cross-validated against re.", PROOF_TECH, "6/C08, 12"),
- "C09": ("proof", "Lean: every score of a constructed object is k/10 with 0<=k<=100 (v2, v3, v4), None exactly for all-ND v2 groups, ratings = official scales (kernel-decided on all 101 values and lifted), v4 rating views coincide, printed score format. Tie: score atlas (every attainable tenth per version/slot, band edges) format / rating / cross-view agreement over all four JSON option sets on the real code.", PROOF_TECH_SRC, "6/C09, 12"),
+ "C09": ("proof", "Lean: every score of a constructed object is k/10 with 0<=k<=100 (v2, v3, v4), None exactly for all-ND v2 groups, ratings = official scales (kernel-decided on all 101 values and lifted), v4 rating views coincide, printed score format. Tie: score atlas (every attainable tenth per version/slot, band edges) format / rating / cross-view agreement over all four JSON option sets on the real code.", PROOF_TECH, "6/C09, 12"),
  "C10": ("proof", "Lean: v2_json_valid / v3_json_valid — for every accepted vector and all four option sets as_json succeeds and has no failing location in the (frozen transcription of the) official schema; v4: the statement is false on the tree — json_v4_invalid_witness proves the negation, recorded as known findings by failing schema location and value. Tie: exact validator on the code's JSON for sampled vectors, the low-end family and accepted edited strings; JSON model-vs-code.", PROOF_TECH, "6/C10, 11, 12"),
  "C11": ("proof", "Lean: asJson{2,3}_full / asJson4_full (every field and its value), asJson{2,3}_minimal (exactly which whole groups are removed and when), asJson_sort (= unsorted followed by sorting), sortObj_perm / sortObj_sorted, keys distinct. Tie: every field of the four option sets vs input, scores, ratings and the frozen metric-name table on the real code; JSON model-vs-code.", PROOF_TECH, "6/C11, 12"),
  "C12": ("proof", "Lean: fromRh_ok_iff / fromRh_error_iff (acceptance and error taxonomy), rh_roundtrip_v{2,3,4}, printed score parses back to itself and to no other score (float grammar + binary64 rounding modelled, kernel-decided 101x101). Tie: round trip and outcome class on score-text x vector streams; model-vs-code on ASCII score texts.", PROOF_TECH, "6/C12, 12"),
  "C13": ("proof", "Lean: parseText_never_raises, parseText_sound, parseText_nodup, parseText_complete_v2/v3 (every delimited valid vector is returned) for the scanner model of the regex with findall semantics, any \\d predicate. Tie: oracle for the four clauses on generated texts; result set model-vs-code.", PROOF_TECH, "6/C13, 12"),
- "C14": ("proof", "Lean: v2/v3 step monotonicity theorems (base, temporal, 3.1 environmental in every metric; 3.0 environmental in the non-exempt metrics; witness of the 3.0 exemption), v4_step_mono / v4_step_mono_E (every scoring metric, effective values) by an integer shadow of the algorithm, an affine corner argument and 8,154 kernel checks. Tie: the relation on the real code for all v2/v3 base steps and grouped/sampled v4 steps; scores model-vs-code.", PROOF_TECH_SRC, "6/C14, 12"),
- "C15": ("proof", "Lean: v{2,3}_subvectors (faithful listing incl. base value for undefined Modified metrics), v{2,3}_reassembled (base + both sub-vectors is accepted and scores identically). Tie: expected listing and re-assembled scores on the real code; sub-vectors model-vs-code.", PROOF_TECH_SRC, "6/C15, 12"),
+ "C14": ("proof", "Lean: v2/v3 step monotonicity theorems (base, temporal, 3.1 environmental in every metric; 3.0 environmental in the non-exempt metrics; witness of the 3.0 exemption), v4_step_mono / v4_step_mono_E (every scoring metric, effective values) by an integer shadow of the algorithm, an affine corner argument and 8,154 kernel checks. Tie: the relation on the real code for all v2/v3 base steps and grouped/sampled v4 steps; scores model-vs-code.", PROOF_TECH, "6/C14, 12"),
+ "C15": ("proof", "Lean: v{2,3}_subvectors (faithful listing incl. base value for undefined Modified metrics), v{2,3}_reassembled (base + both sub-vectors is accepted and scores identically). Tie: expected listing and re-assembled scores on the real code; sub-vectors model-vs-code.", PROOF_TECH, "6/C15, 12"),
  "C16": ("proof", "Lean: Dialogue specification; ask_result_iff, ask_eof_iff, ask_never_keyError, dialogue_pairs, ask_result_parses_v*, ask_result_constructs; selectable_all, empty_selects_nd. Tie: scripted dialogues (valid/invalid/empty/any case, premature EOF, equal version spellings) vs an independent simulation of the statement and vs the model.", PROOF_TECH, "6/C16, 12"),
  "C17": ("proof", "Lean: dispatch, report_valid (exact report format from the library's results), report_invalid, main_interactive, main_never_crashes_any, report_scores_iff_accepted over the library model. Tie: main() in-process for all flag subsets x vectors x answer scripts vs the API, vs the Lean grammar (with history replay) and vs the model; subprocess runs in thorough.", PROOF_TECH, "6/C17, 12"),
  "C18": ("other", "Partial: Lean accessors_pure (structural: the model object is an immutable value) and accessors_total_v{2,3,4} (no accessor can fail on a constructed object); the assurance for the Python object is model-based differential execution of random accessor histories incl. mutation of returned dicts. Aliasing/caching are runtime facts the model cannot exhibit.", "Lean 4 theorems + model-based differential accessor histories", "6/C18"),
@@ -35,14 +35,14 @@ CHECKS = {
 
 # what was added after the first revision (kept apart so that the original level texts stay readable)
 EXTRA = {
- "C15": " SOURCE TIE (DESIGN 16): the scoring / accessor methods this property leans on are re-translated from the source text of cvss2/3/4.py on every run and CodeTie2/3/4 re-prove model = translated source; the translation is executed against CPython every run.",
- "C14": " SOURCE TIE (DESIGN 16): the scoring / accessor methods this property leans on are re-translated from the source text of cvss2/3/4.py on every run and CodeTie2/3/4 re-prove model = translated source; the translation is executed against CPython every run.",
- "C09": " SOURCE TIE (DESIGN 16): the scoring / accessor methods this property leans on are re-translated from the source text of cvss2/3/4.py on every run and CodeTie2/3/4 re-prove model = translated source; the translation is executed against CPython every run.",
- "C07": " SOURCE TIE (DESIGN 16): the scoring / accessor methods this property leans on are re-translated from the source text of cvss2/3/4.py on every run and CodeTie2/3/4 re-prove model = translated source; the translation is executed against CPython every run.",
- "C06": " SOURCE TIE (DESIGN 16): the scoring / accessor methods this property leans on are re-translated from the source text of cvss2/3/4.py on every run and CodeTie2/3/4 re-prove model = translated source; the translation is executed against CPython every run.",
- "C01": " Search beyond single constructions: special families (corners, full spelling, rounding ties), repeated construction, scores read from as_json(), warm / cold-start concurrency. SOURCE TIE (DESIGN 16): cvss3.py's handle_scope / add_missing_optional / get_value / compute_* / clean_vector / severities / sub-vector methods are re-translated from the source text on every run (tools/gen_code.py -> Gen/Code3) and CodeTie3.init_tail_eq etc. re-prove model = translated source for every metric dict; the translation is executed against CPython on ~9,000 vectors per run (exact Decimal values).",
- "C02": " Search beyond single constructions: special families incl. 261 frozen rounding ties found with the Lean spec, repeated construction, warm / cold-start concurrency. SOURCE TIE (DESIGN 16): cvss4.py's m(), macroVector(), clean_vector and the literal *_levels / step tables of compute_base_score are re-translated from the source text on every run (Gen/Code4); CodeTie4.m_eq, macroVector_eq, levels_eq, distMetrics_eq re-prove model = translated source; executed against CPython on ~4,000 vectors per run.",
- "C03": " Search beyond single constructions: corner and cap families, repeated construction, scores read from as_json(), warm / cold-start concurrency. SOURCE TIE (DESIGN 16): cvss2.py's get_value, the four equations, compute_* and the accessors are re-translated from the source text on every run (Gen/Code2) and CodeTie2.init_tail_eq etc. re-prove model = translated source for every metric dict; the translation is executed against CPython on ~6,500 vectors per run.",
+ "C15": "",
+ "C14": "",
+ "C09": "",
+ "C07": "",
+ "C06": "",
+ "C01": " Search beyond single constructions: special families (corners, full spelling, rounding ties), repeated construction, scores read from as_json(), warm / cold-start concurrency.",
+ "C02": " Search beyond single constructions: special families incl. 261 frozen rounding ties found with the Lean spec, repeated construction, warm / cold-start concurrency.",
+ "C03": " Search beyond single constructions: corner and cap families, repeated construction, scores read from as_json(), warm / cold-start concurrency.",
  "C13": " Lean (C13Order): parseText_order / parseText_eq_dedup - the result is exactly the first-occurrence de-duplication of the built candidates (a function of the text alone; order part of C19/C20 after repo fix 9402f24). Tie also on long texts (to 256 KiB) with vectors at power-of-two offsets and optional-only fragments.",
  "C16": " The question order is learned behaviourally, prompts are auxiliary only; runs of thousands of illegal answers.",
  "C17": " Lean (C17Messages): the message / prompt / stdout models are erasures of the verified core (parseMsg_v*, constructMsg_*_iff, mainMsg_eq, dialogue_vector, stdout_total). The report oracle compares VALUES in the API's order (layout-tolerant); wording and layout are auxiliary correspondence.",
@@ -51,11 +51,29 @@ EXTRA = {
  "C20": " Also: argparse spellings, near-miss RH score texts, extraction result order.",
 }
 
+# source tie (DESIGN 16), appended to the level text
+SRC_TIE = {
+ "C01": "cvss3.py's WHOLE constructor (parse_vector, check_mandatory, handle_scope, add_missing_optional, get_value, compute_*) and its accessors (clean_vector, severities, sub-vectors, as_json) are re-translated from the source text on every run (tools/gen_code.py -> Gen/Code3) and CodeTie3.construct_eq / init_tail_eq etc. re-prove model = translated source for every string / metric dict; CodeTie3Final composes them with this property's theorems (source_v3_scores_eq_spec: the translated source computes the FIRST equations); the translation is executed against CPython on ~13,000 inputs per run (exact Decimal values, exception classes).",
+ "C02": "cvss4.py's constructor (parse_vector, check_mandatory, add_missing_optional, m(), macroVector(), compute_base_score with its tables, compute_severity) and accessors are re-translated from the source text on every run (Gen/Code4); CodeTie4 re-proves model = translated source for the parser, m / macroVector, the level tables, compute_severity, clean_vector, as_json (the evidence file lists the theorems in force); the WHOLE translated constructor incl. compute_base_score (binary floats as exact rationals, NaN modelled) is executed against CPython on ~17,000 inputs per run.",
+ "C03": "cvss2.py's WHOLE constructor and its accessors are re-translated from the source text on every run (Gen/Code2) and CodeTie2.construct_eq / init_tail_eq etc. re-prove model = translated source for every string / metric dict; CodeTie2Final: source_v2_scores_eq_spec (the translated source computes the guide's equations); executed against CPython on ~11,000 inputs per run.",
+ "C04": 'the constructors and accessor methods this property leans on are re-translated from the source text of cvss2/3/4.py on every run and CodeTie2/3/4 (+Final) re-prove model = translated source (construct_eq: same exception class or same object for EVERY string); the translation is executed against CPython every run. CodeTie{2,3}Final: source_v{2,3}_construct_accepts_iff / _outcomes / _mandatory_iff - the translated constructor succeeds exactly on the grammar and otherwise raises the malformed or the mandatory class.',
+ "C05": 'the constructors and accessor methods this property leans on are re-translated from the source text of cvss2/3/4.py on every run and CodeTie2/3/4 (+Final) re-prove model = translated source (construct_eq: same exception class or same object for EVERY string); the translation is executed against CPython every run.',
+ "C06": 'the constructors and accessor methods this property leans on are re-translated from the source text of cvss2/3/4.py on every run and CodeTie2/3/4 (+Final) re-prove model = translated source (construct_eq: same exception class or same object for EVERY string); the translation is executed against CPython every run.',
+ "C07": 'the constructors and accessor methods this property leans on are re-translated from the source text of cvss2/3/4.py on every run and CodeTie2/3/4 (+Final) re-prove model = translated source (construct_eq: same exception class or same object for EVERY string); the translation is executed against CPython every run.',
+ "C09": 'the constructors and accessor methods this property leans on are re-translated from the source text of cvss2/3/4.py on every run and CodeTie2/3/4 (+Final) re-prove model = translated source (construct_eq: same exception class or same object for EVERY string); the translation is executed against CPython every run.',
+ "C10": 'the constructors and accessor methods this property leans on are re-translated from the source text of cvss2/3/4.py on every run and CodeTie2/3/4 (+Final) re-prove model = translated source (construct_eq: same exception class or same object for EVERY string); the translation is executed against CPython every run.',
+ "C11": 'the constructors and accessor methods this property leans on are re-translated from the source text of cvss2/3/4.py on every run and CodeTie2/3/4 (+Final) re-prove model = translated source (construct_eq: same exception class or same object for EVERY string); the translation is executed against CPython every run.',
+ "C14": 'the constructors and accessor methods this property leans on are re-translated from the source text of cvss2/3/4.py on every run and CodeTie2/3/4 (+Final) re-prove model = translated source (construct_eq: same exception class or same object for EVERY string); the translation is executed against CPython every run.',
+ "C15": 'the constructors and accessor methods this property leans on are re-translated from the source text of cvss2/3/4.py on every run and CodeTie2/3/4 (+Final) re-prove model = translated source (construct_eq: same exception class or same object for EVERY string); the translation is executed against CPython every run.',
+}
+
 
 def main():
     checks = []
     for pid, (cat, text, tech, ref) in sorted(CHECKS.items()):
-        text = text + EXTRA.get(pid, "")
+        text = text + EXTRA.get(pid, "") + ((" SOURCE TIE (DESIGN 16): " + SRC_TIE[pid]) if pid in SRC_TIE else "")
+        if pid in SRC_TIE and tech == PROOF_TECH:
+            tech = PROOF_TECH_SRC
         checks.append({
             "property_id": pid,
             "quick_cmd": "./check %s --tier quick" % pid,
